@@ -7,6 +7,12 @@ import Panacea.Lemmas.DidHist
 `stored` only*, to the method `vm`; `vm` is one of the two secp256k1 types with a 33-byte key; and
 `sig` verifies under that key over `DataWithSeq{data, seq}`.  Signature verification itself is the
 parameter `cr`.
+
+`data` is the *rendering* of the document that the code signs (its sorted JSON).  "Over the new content" in
+the theorems therefore means: over that rendering.  The rendering is injective on documents whose strings
+are valid UTF-8, and **not** otherwise — **known finding F18**: two documents that differ only in a byte
+that is not valid UTF-8 share it, and the real chain accepts a proof made over one for the other
+(`mon.c03.utf8` in the `did` stream).
 -/
 namespace Panacea.C03
 open Panacea Did
